@@ -1111,6 +1111,18 @@ class Sem:
             if ga and all(g in PRIMS for g in ga):
                 op = {"eq": "Eq", "ne": "Ne", "lt": "Lt", "le": "Le", "gt": "Gt", "ge": "Ge"}[nm]
                 return [(st, simp_binop(op, self.val(A[0], st), self.val(A[1], st)))]
+            if nm in ("eq", "ne") and ga and all(g.startswith("std::option::Option<") or g.startswith("core::option::Option<") or g.startswith("Option<") for g in ga):
+                # Option<prim> == Option<prim> on known variants: by the derived definition
+                inner = [g[g.index("<") + 1:-1].lstrip("&") for g in ga]
+                x, y = self.val(A[0], st), self.val(A[1], st)
+                if all(i_ in PRIMS for i_ in inner) and x[0] == "agg" and y[0] == "agg" and x[2] in ("Some", "None") and y[2] in ("Some", "None"):
+                    if x[2] != y[2]:
+                        r = FALSE
+                    elif x[2] == "None":
+                        r = TRUE
+                    else:
+                        r = simp_binop("Eq", self.val(get_field(x, "0"), st), self.val(get_field(y, "0"), st))
+                    return [(st, r if nm == "eq" else simp_unop("Not", r))]
             return None
         if nm == "extend" and "iter::Extend" in p and len(A) == 2 and A[0][0] == "ptr":
             # Vec::extend / String::extend: the collection afterwards is the old one followed by the new elements
@@ -1132,6 +1144,17 @@ class Sem:
                 return [(st, mk("iterlist", tuple(a[1])))]
             if a[0] == "iterlist":
                 return [(st, a)]
+        if nm in ("first", "first_mut") and "slice" in p and len(A) == 1:
+            # xs.first(): None when xs is empty, else Some(&xs[0]); emptiness is the atom the `is_empty()` spelling yields
+            x = self.val(A[0], st)
+            if x[0] == "call" and last(x[1]) == "as_bytes" and len(x[2]) == 1:
+                atom = mk("call", "core::str::<impl str>::is_empty", (x[2][0],), "core::str::<impl str>::is_empty", ())
+            else:
+                atom = mk("call", "core::slice::<impl [T]>::is_empty", (x,), "core::slice::<impl [T]>::is_empty", ())
+            out = []
+            for (s2, tv) in self.split_bool(st, atom):
+                out.append((s2, NONE if tv else some(mk("index", x, mk("const", "usize", 0)))))
+            return out
         if nm == "next" and "Iterator" in p and len(A) == 1 and A[0][0] == "ptr":
             cur = self.resolve(self.read_at(st, A[0][1], A[0][2]), st)
             if isinstance(cur, tuple) and cur and cur[0] == "iterlist":
